@@ -122,9 +122,11 @@ def sequential_traces(ctx: Ctx, rnd: random.Random, ntraces: int, maxlen: int) -
         else:
             clock = FakeClock(_mk_instant(i0), Duration.from_nanoseconds(a0))
         events.append({"op": "init", "t": t, "now": proj.t3_from_ns(i0), "auto": proj.t3_from_ns(a0)})
+        kept_zoned: dict = {}
         # some traces keep one real zone for all their ZonedClock reads and move the clock by whole turns of that zone's
         # interval cache in between (the zone object is shared by everything in the process: its cache has a history)
         trace_zone = rnd.choice(["Europe/London", "America/New_York", "Australia/Lord_Howe", "Asia/Tehran", "America/Sao_Paulo"]) if rnd.random() < 0.35 else None
+        trace_cal = rnd.choice(["ISO", "ISO", "Gregorian", "Julian", "Coptic"])
         for _ in range(rnd.randint(1, maxlen)):
             c = rnd.random()
             if trace_zone is not None:
@@ -187,7 +189,7 @@ def sequential_traces(ctx: Ctx, rnd: random.Random, ntraces: int, maxlen: int) -
             else:
                 # ZonedClock over this fake clock: fixed-offset zone, some calendar
                 off = rnd.choice([0, 3600, -3600, 64800, -64800, 19800, rnd.randint(-64800, 64800)])
-                cal = rnd.choice(list(CalendarSystem.ids))
+                cal = rnd.choice(list(CalendarSystem.ids)) if trace_zone is None else trace_cal
                 zone = DateTimeZone.for_offset(Offset.from_seconds(off))
                 if trace_zone is not None or rnd.random() < 0.2:
                     # a real zone: the offset is the one the zone has at the instant the wrapped clock is about to return; the
@@ -214,10 +216,14 @@ def sequential_traces(ctx: Ctx, rnd: random.Random, ntraces: int, maxlen: int) -
                 if zroute == 2 and "iv" not in ev and rnd.random() < 0.5:
                     off, cal, zone = 0, "ISO", DateTimeZone.utc
                     zc = clock.in_utc()
+                elif (zone.id, cal) in kept_zoned and rnd.random() < 0.7:
+                    zc = kept_zoned[(zone.id, cal)]         # the same ZonedClock object as earlier in this trace (the clock may have gone back since)
                 elif zroute >= 1:
                     zc = clock.in_zone(zone, CalendarSystem.for_id(cal))
+                    kept_zoned[(zone.id, cal)] = zc
                 else:
                     zc = ZonedClock(clock, zone, CalendarSystem.for_id(cal))
+                    kept_zoned[(zone.id, cal)] = zc
                 ev.update(op="zoned", offset=off, cal=cal, zone=zone.id, zroute=zroute)
 
                 getter = rnd.choice(["get_current_zoned_date_time", "get_current_offset_date_time", "get_current_local_date_time",
